@@ -136,7 +136,7 @@ class Unit:
 STD_RULES = ["R7", "R20", "R27", "R29", "R30", "R31", "R35", "R37", "R38", "R39", "R40"]   # definitional unfoldings of std combinators, safe to apply anywhere
 
 
-ALWAYS_RULES = ["R40", "R38", "R29", "R35", "R42", "R43", "R46", "R47"]   # closure-parameter renaming, unwrap_or_else, bool::then, get_or_insert_with, is_some_and: type-agnostic
+ALWAYS_RULES = ["R40", "R38", "R29", "R35", "R42", "R43", "R46", "R47", "R39"]   # closure-parameter renaming, unwrap_or_else, bool::then, get_or_insert_with, is_some_and: type-agnostic
 
 
 def apply_rules(text, names, unit, where):
